@@ -353,12 +353,15 @@ def child_main(proc, sockpath, cache_dir, forms, max_polls, opt_flags):
         st["orig"] = (list(root.handlers), sys.stdout, os.getcwd())
         obj, expect = forms[k][variant]
         outcome, exc, result_ok = "returned", "", True
+        # the user-level cause of an injected link failure: a library that does not exist (ccwrap.py drops it
+        # from the real link and simulates the half-written failure); requests without a fault pass None
+        bad_libs = ["ffcxverif_missing"] if f == "link" else None
         try:
             x = np.array([0.0, 0, 0, 1.0, 0, 0])
             if variant == "form":
                 objs, mod, _ = jit.compile_forms(
                     [obj], options={"scalar_type": "float64"}, cache_dir=cache_dir,
-                    timeout=max_polls, cffi_extra_compile_args=list(opt_flags))
+                    timeout=max_polls, cffi_extra_compile_args=list(opt_flags), cffi_libraries=bad_libs)
                 ffi = mod.ffi
                 integral = objs[0].form_integrals[0]
                 A = np.zeros((2, 2))
@@ -368,7 +371,7 @@ def child_main(proc, sockpath, cache_dir, forms, max_polls, opt_flags):
             else:
                 objs, mod, _ = jit.compile_expressions(
                     [obj], options={"scalar_type": "float64"}, cache_dir=cache_dir,
-                    timeout=max_polls, cffi_extra_compile_args=list(opt_flags))
+                    timeout=max_polls, cffi_extra_compile_args=list(opt_flags), cffi_libraries=bad_libs)
                 ffi = mod.ffi
                 A = np.zeros(2)
                 w = np.array([3.0, 1.0])          # f(X) = 3 (1 - X) + X on the reference interval
